@@ -176,6 +176,17 @@ class Verdict:
         return rc
 
 
+def _run_chunk(fc):
+    """One chunk in a pool worker; collect garbage afterwards (workers live for the whole map and the
+    meshes / scenes a chunk builds reference each other in cycles)."""
+    import gc
+    func, chunk = fc
+    try:
+        return func(chunk)
+    finally:
+        gc.collect()
+
+
 def pmap(func, items, nproc=None, chunk=None):
     """Run func(list_of_items) over chunks in a fork pool; returns list of per-chunk results."""
     import multiprocessing as mp
@@ -196,7 +207,7 @@ def pmap(func, items, nproc=None, chunk=None):
     from concurrent.futures.process import BrokenProcessPool
     try:
         with ProcessPoolExecutor(max_workers=nproc, mp_context=ctx) as pool:
-            return list(pool.map(func, chunks))
+            return list(pool.map(_run_chunk, [(func, c) for c in chunks]))
     except BrokenProcessPool as e:
         raise MachineryError("a worker process died (killed / out of memory?): %r" % (e,))
 
